@@ -305,6 +305,10 @@ pub fn run(sc: &C30Scenario, cmds_run: &mut u64) -> Result<Outcome, String> {
     if let Some(e) = r.harness_error {
         return Err(e);
     }
+    if let Ok(f) = std::env::var("C30_TRACE_FILE") {
+        let text: String = r.trace.iter().map(|t| format!("{} {} {} {:?} arrived={}\n", t.actor, t.kind, t.path.rsplit('/').take(3).collect::<Vec<_>>().join("<"), t.verdict, t.arrived)).collect();
+        let _ = std::fs::write(f, text);
+    }
     if std::env::var("C30_DUMP").is_ok() {
         for t in &r.trace {
             eprintln!("{} {} {} {:?}", t.actor, t.kind, t.path.rsplit('/').take(3).collect::<Vec<_>>().join("<"), t.verdict);
